@@ -730,7 +730,19 @@ func mapRunes(s string, first, rest func(rune) rune) string {
 func caseProp(c TextCase, r *pbt.R) error {
 	s := string(c.S)
 	if !utf8.ValidString(s) {
-		return nil // rune-wise helpers: valid UTF-8 only
+		// The statement describes the rune-wise helpers on text, i.e. valid UTF-8. On anything else only the baseline is
+		// asserted: the call returns (no panic). What it returns is not constrained.
+		for name, f := range map[string]func(string) string{
+			"ToLower": gogu.ToLower[string], "ToUpper": gogu.ToUpper[string], "Capitalize": gogu.Capitalize[string], "ReverseStr": gogu.ReverseStr[string],
+			"CamelCase": gogu.CamelCase[string], "SnakeCase": gogu.SnakeCase[string], "KebabCase": gogu.KebabCase[string],
+			"WrapAllRune(-)": func(x string) string { return gogu.WrapAllRune(x, "-") },
+		} {
+			if _, err := try(func() string { return fmt.Sprintf("%s(%q) (invalid UTF-8)", name, s) }, func() string { return f(s) }); err != nil {
+				return err
+			}
+		}
+		r.NonTrivialIf(true, "invalid UTF-8: the helpers return without panicking")
+		return nil
 	}
 	lo, err := try(func() string { return fmt.Sprintf("ToLower(%q)", s) }, func() string { return gogu.ToLower(s) })
 	if err != nil {
@@ -790,6 +802,10 @@ func caseEnum(s pbt.Src, thorough bool) TextCase {
 }
 
 func caseGen(s pbt.Src, thorough bool) TextCase {
+	if s.Intn(10) == 0 {
+		// text with byte fragments that are not valid UTF-8 (only "returns without panicking" is asserted there)
+		return TextCase{S: Str(genText(s, 24, true))}
+	}
 	parts := pbt.Seq(s, 0, 24, func(s pbt.Src) string {
 		k := s.Intn(len(caseSyms) + len(wideSyms))
 		if k < len(caseSyms) {
@@ -1100,7 +1116,7 @@ func TestProp(t *testing.T) {
 		},
 		&pbt.Check[TextCase]{
 			Name: "case",
-			Rule: "valid UTF-8 only: ToLower / ToUpper = rune-wise unicode.ToLower / unicode.ToUpper; Capitalize = first rune upper (or title) case, rest lower case; ReverseStr = runes in reverse order. " +
+			Rule: "(on invalid UTF-8, one random case in ten, only: every rune-wise helper returns without panicking) valid UTF-8: ToLower / ToUpper = rune-wise unicode.ToLower / unicode.ToUpper; Capitalize = first rune upper (or title) case, rest lower case; ReverseStr = runes in reverse order. " +
 				"Enumerated: every string of the substr scope. Random: up to 24 runes from a table of cased/uncased 1..4-byte runes incl. length-changing and title-case mappings. " +
 				"Non-trivial = contains a cased letter or a multi-byte rune.",
 			Enum: caseEnum, Gen: caseGen, Prop: caseProp, OutOfEnum: caseOut,
